@@ -1,3 +1,5 @@
+import SccacheModel.Gen.Consts
+
 namespace SchedM
 
 /-! Sketch (design round): executable model of the sccache-dist `Scheduler` (as written), time frozen. -/
@@ -35,6 +37,10 @@ deriving Repr, DecidableEq
 namespace Sched
 
 def capOf (cpus : Nat) : Nat := cpus + 1 + cpus / 8
+
+/-- `cores_plus_slack` and `MAX_PER_CORE_LOAD` are what sccache-dist/main.rs says **now** (`Gen/Consts.lean` is regenerated on
+    every run; the translator also checks the text of the formula and its `>=`) -/
+theorem capacity_matches_source : (∀ c, capOf c = GenC.capOf c) ∧ GenC.maxPerCoreLoad = 2 := ⟨fun _ => rfl, rfl⟩
 
 /-- `load_weight < MAX_PER_CORE_LOAD` in exact arithmetic -/
 def loadOk (s : Srv) : Bool := s.assigned.length < capOf s.cpus && s.assigned.length < 2 * s.cpus
